@@ -13,13 +13,13 @@ From Pymoto Require Import Model.Concat.
 Import ListNotations.
 
 Record OOps (K : Type) := mkOOps {
-  o0 : K; ohalf : K;
+  o0 : K; ohalf : K; oten : K; ohuge : K;          (* the literals 0, 0.5, 10, 1e300 *)
   oadd : K -> K -> K; osub : K -> K -> K; omul : K -> K -> K; odiv : K -> K -> K;
   oopp : K -> K; osqrt : K -> K; oabs : K -> K;
   oltb : K -> K -> bool;          (* a < b *)
   osuml : list K -> K             (* np.sum of a 1-D array (binary64: numpy's pairwise order; R: the sum) *)
 }.
-Arguments o0 {K}. Arguments ohalf {K}. Arguments oadd {K}. Arguments osub {K}. Arguments omul {K}.
+Arguments o0 {K}. Arguments ohalf {K}. Arguments oten {K}. Arguments ohuge {K}. Arguments oadd {K}. Arguments osub {K}. Arguments omul {K}.
 Arguments odiv {K}. Arguments oopp {K}. Arguments osqrt {K}. Arguments oabs {K}. Arguments oltb {K}. Arguments osuml {K}.
 
 (* xmin / xmax: a scalar (broadcast) or one value per variable *)
@@ -60,6 +60,12 @@ Section OC.
     map (fun q => match q with (i, (xi, gi)) => oc_elem lam (move pr) (bget (bmin pr) i) (bget (bmax pr) i) xi gi end)
         (combine (seq 0 (length x)) (combine x g)).
 
+  (* lower = np.maximum(xmin, xval-move)   (the same values the update clips to) *)
+  Definition oc_lower (pr : oc_params) (x : list K) : list K :=
+    map (fun q => omax (bget (bmin pr) (fst q)) (osub P (snd q) (move pr))) (combine (seq 0 (length x)) x).
+  (* np.any(xnew > lower) *)
+  Definition any_above (xn lower : list K) : bool := existsb (fun q => oltb P (snd q) (fst q)) (combine xn lower).
+
   (* rel_fchange = abs(f-fprev)/abs(f);  rel_stepsize = np.linalg.norm(xval - xnew)/np.linalg.norm(xval) *)
   Definition rel_fchange (f fprev : K) : K := odiv P (oabs P (osub P f fprev)) (oabs P f).
   Definition rel_stepsize (xval xn : list K) : K := odiv P (onorm (vsub xval xn)) (onorm xval).
@@ -89,6 +95,20 @@ Section OC.
       end
     else BisDone l1 l2 last.
 
+  (* the bracket-growing loop (fix ebed191, finding F19): starting from l2 = l2init and xnew = update at l2,
+       while np.sum(xnew) - maxvol > 0 and np.any(xnew > lower) and l2 < 1e300:
+           l2 *= 10
+           xnew = np.clip(xval * np.sqrt(-dfdx / l2), lower, upper) *)
+  Inductive grow_result := GrowOutOfFuel | GrowDone (l2 : K) (xn : list K).
+
+  Fixpoint grow (pr : oc_params) (maxvol : K) (x g : list K) (fuel : nat) (l2 : K) (xn : list K) : grow_result :=
+    if oltb P 0 (osub P (osum xn) maxvol) && any_above xn (oc_lower pr x) && oltb P l2 (ohuge P) then
+      match fuel with
+      | O => GrowOutOfFuel
+      | S fuel' => let l2' := omul P l2 (oten P) in grow pr maxvol x g fuel' l2' (oc_xnew pr l2' x g)
+      end
+    else GrowDone l2 xn.
+
   Inductive oc_stop := StopTolF | StopTolX | StopMaxit | StopUnbound | StopOutOfFuel | StopValueError.
 
   (* obtain_sensitivities: a sensitivity that is None is replaced by zeros_like(state) (None if the state is None too) *)
@@ -114,8 +134,7 @@ Section OC.
      obs it states = (objective.state, [s.sensitivity for s in variables]) for the network evaluated on the
      variable signals' states at iteration it. *)
   Fixpoint oc_loop (pr : oc_params) (obs : nat -> list (pstate K) -> K * list (pstate K)) (maxvol : K) (bfuel : nat)
-           (cum : list Z) (n it : nat) (xval : list K) (states : list (pstate K)) (f : K)
-           (xnew_prev : option (list K)) : oc_trace :=
+           (cum : list Z) (n it : nat) (xval : list K) (states : list (pstate K)) (f : K) : oc_trace :=
     match n with
     | O => mkTrace [] [] StopMaxit xval states
     | S n' =>
@@ -129,12 +148,17 @@ Section OC.
              | Some (g, _) =>
              let w := oltb P (warn_eps pr) (omaxl g) in
              cons_warn w
-               (match bisect pr maxvol xval (clip_grad g) bfuel (l1init pr) (l2init pr) xnew_prev with
+               (let g' := clip_grad g in
+                match grow pr maxvol xval g' bfuel (l2init pr) (oc_xnew pr (l2init pr) xval g') with
+                | GrowOutOfFuel => mkTrace [] [] StopOutOfFuel xval states
+                | GrowDone l2g xng =>
+                match bisect pr maxvol xval g' bfuel (l1init pr) l2g (Some xng) with
                 | BisOutOfFuel => mkTrace [] [] StopOutOfFuel xval states
-                | BisDone _ _ None => mkTrace [] [] StopUnbound xval states   (* xnew referenced before assignment *)
+                | BisDone _ _ None => mkTrace [] [] StopUnbound xval states   (* cannot happen: xnew is bound above *)
                 | BisDone _ _ (Some xn) =>
                     if oltb P (rel_stepsize xval xn) (tolx pr) then mkTrace [] [] StopTolX xval states
-                    else oc_loop pr obs maxvol bfuel cum n' (S it) xn (write_back (length states) xn cum) fnew (Some xn)
+                    else oc_loop pr obs maxvol bfuel cum n' (S it) xn (write_back (length states) xn cum) fnew
+                end
                 end)
              end)
     end.
@@ -147,21 +171,21 @@ Section OC.
     | None => None
     | Some (xval, cum) =>
         let mv := match maxvol with Some v => v | None => osum xval end in
-        Some (oc_loop pr obs mv bfuel cum (maxit pr) O xval vars 0 None)
+        Some (oc_loop pr obs mv bfuel cum (maxit pr) O xval vars 0)
     end.
 End OC.
 
 Arguments mkParams {K}. Arguments tolx {K}. Arguments tolf {K}. Arguments maxit {K}. Arguments bmin {K}.
 Arguments bmax {K}. Arguments move {K}. Arguments l1init {K}. Arguments l2init {K}. Arguments l1l2tol {K}.
 Arguments warn_eps {K}.
-Arguments BisOutOfFuel {K}. Arguments BisDone {K}.
+Arguments BisOutOfFuel {K}. Arguments BisDone {K}. Arguments GrowOutOfFuel {K}. Arguments GrowDone {K}.
 Arguments designs {K}. Arguments warns {K}. Arguments stop {K}. Arguments final {K}. Arguments final_states {K}. Arguments mkTrace {K}.
 
 (* ---- the executed instance: IEEE binary64 *)
 From Coq Require Import PrimFloat.
 From Pymoto Require Import Base.PyFloat.
 Definition FloatOOps : OOps float :=
-  {| o0 := PrimFloat.zero; ohalf := 0x1p-1%float;
+  {| o0 := PrimFloat.zero; ohalf := 0x1p-1%float; oten := 10%float; ohuge := 0x1.7e43c8800759cp+996%float;
      oadd := PrimFloat.add; osub := PrimFloat.sub; omul := PrimFloat.mul; odiv := PrimFloat.div;
      oopp := PrimFloat.opp; osqrt := PrimFloat.sqrt; oabs := PrimFloat.abs; oltb := PrimFloat.ltb;
      osuml := np_sum |}.
